@@ -114,7 +114,14 @@ Proof.
   fold ns in A, B. split; [apply B; exact tracked|exact A].
 Qed.
 
-(** ** streams *)
+(* the inclusion half needs no hypothesis on the packet-number history *)
+Lemma procs_incl : incl (n_procs ns) sent.
+Proof.
+  destruct (processed_from_sent aead_open hp_mask aead_seal sealed ideal sent honest nevs) as [A _]. exact A.
+Qed.
+
+(** ** streams (no hypothesis on the received-packet history: a packet processed twice only delivers its
+    frames twice, which the stream layer absorbs) *)
 Section Streams.
 Variables (sid0 : Z) (rsa : bool) (swin cwin : Z) (ops : list V.SendStream.Model.op) (w : Z) (evs : list cev).
 Let s := fst (V.SendStream.Model.run (V.SendStream.Model.init sid0 rsa swin cwin) ops).
@@ -130,7 +137,7 @@ Lemma net_derived : forall f, In f (cdelivered evs) -> In f E.
 Proof.
   intros f Hf. rewrite delivered_is_handled in Hf. unfold stream_frames_handled, procs_payloads in Hf.
   apply in_flat_map in Hf. destruct Hf as (p & Hp & Hfp). apply in_map_iff in Hp. destruct Hp as (x & <- & Hx).
-  destruct procs_sub as [_ Hi]. eapply packed; [apply Hi; exact Hx|exact Hfp].
+  eapply packed; [apply procs_incl; exact Hx|exact Hfp].
 Qed.
 
 Theorem e2e_prefix r :
